@@ -213,7 +213,9 @@ NewItem(itemS, v, path) ==
     ELSE IF v.t = "cfgobj" THEN
         LET r == ValidateCfg(itemS, v.c, path) IN
         Res(r.ok, v.c, r.err, {})
-    ELSE Res(FALSE, NoneV, Err("ValueError", path), {})
+    \* not a map and not a configuration: a plain ValueError, wrapped by the caller with the
+    \* path of the list field itself (there is no configuration whose index could be named)
+    ELSE Res(FALSE, NoneV, Err("ValueError", SubSeq(path, 1, Len(path) - 1)), {})
 
 NewItems(itemS, l, path, n, acc) ==
     IF l = <<>> THEN Res(TRUE, ListV(acc), NoErr, {})
@@ -225,6 +227,15 @@ NewItems(itemS, l, path, n, acc) ==
 \* inputs whose treatment the specification does not describe (conformance skips them)
 WrapCls(r) == IF r.err = "Unmodelled" THEN "Unmodelled" ELSE "ValidationError"
 
+\* reference path of a rejected entry of a typed dict: the field's path followed by [key]
+\* (DictProxy._validate raises the library's error itself, naming the raw key)
+FirstBadKey(f, kv) ==
+    LET bad == {i \in DOMAIN kv : ~Validate(f.keyf, kv[i][1]).ok \/ ~Validate(f.valf, kv[i][2]).ok} IN
+    kv[CHOOSE i \in bad : \A j \in bad : i <= j][1]
+DictErrPath(f, v, path, r) ==
+    IF f.kind = "dict" /\ ~r.ok /\ r.err = "ValidationError" /\ v.t = "dict"
+    THEN Append(path, <<"@", FirstBadKey(f, v.kv)>>) ELSE path
+
 \* validation of a value for a leaf field, including lists of configurations
 LeafValidate(f, v, path) ==
     IF f.kind = "list" /\ IsSchema(f.item) THEN
@@ -235,7 +246,7 @@ LeafValidate(f, v, path) ==
         ELSE LET r == NewItems(f.item, v.l, path, 1, <<>>) IN
              IF r.ok THEN r ELSE Res(FALSE, NoneV, Err("ValidationError", r.err.path), {})
     ELSE LET r == Validate(f, v) IN
-         IF r.ok THEN Res(TRUE, r.v, NoErr, {}) ELSE Res(FALSE, NoneV, Err(WrapCls(r), path), {})
+         IF r.ok THEN Res(TRUE, r.v, NoErr, {}) ELSE Res(FALSE, NoneV, Err(WrapCls(r), DictErrPath(f, v, path, r)), {})
 
 \* Config._set_value(key, value) on configuration c of schema S located at `path`
 SetValue(S, c, k, v, path) ==
@@ -288,7 +299,7 @@ LoadPairs(S, c, kv, path) ==
                           \* the items are turned into configurations by the validation that follows
                           ELSE IF leaf /\ ~Truthy(v) THEN Ok(ListV(<<>>))
                           ELSE Ok(v) IN
-                IF ~py.ok THEN Res(FALSE, c, Err(WrapCls(py), Append(path, k)), {})
+                IF ~py.ok THEN Res(FALSE, c, Err(WrapCls(py), DictErrPath(f, v, Append(path, k), py)), {})
                 ELSE LET r == SetValue(S, c, k, py.v, path) IN
                      IF ~r.ok THEN r
                      ELSE LET rest == LoadPairs(S, r.cfg, Tail(kv), path) IN
@@ -351,17 +362,21 @@ ResetValue(S, c, p, k) ==
 ---------------------------------------------------------------------------
 (* typed list / dict values held in a configuration: in-place mutation.  `f` is the
    ListField / DictField, `cur` the stored value, the result is the new stored value. *)
-ItemValidate(f, v, path) ==
-    IF IsSchema(f.item) THEN NewItem(f.item, v, path)
+\* pos: number of items the list holds while the item is validated (ListProxy._get_item_position
+\* falls back to len(self) for an item that is not in the list yet)
+ItemValidate(f, v, path, pos) ==
+    IF IsSchema(f.item) THEN NewItem(f.item, v, Append(path, <<"#", pos + 1>>))
     ELSE LET r == Validate(f.item, v) IN
          IF r.ok THEN Res(TRUE, r.v, NoErr, {}) ELSE Res(FALSE, NoneV, Err("ValueError", path), {})
 
-RECURSIVE ItemsValidate(_, _, _, _)
-\* on failure .cfg is the prefix that was validated before the failing item
-ItemsValidate(f, l, path, acc) ==
+RECURSIVE ItemsValidate(_, _, _, _, _, _)
+\* on failure .cfg is the prefix that was validated before the failing item.  grow: the list
+\* grows while the items are validated (extend) or not (slice assignment)
+ItemsValidate(f, l, path, acc, pos, grow) ==
     IF l = <<>> THEN Res(TRUE, acc, NoErr, {})
-    ELSE LET r == ItemValidate(f, Head(l), path) IN
-         IF r.ok THEN ItemsValidate(f, Tail(l), path, Append(acc, r.cfg)) ELSE Res(FALSE, acc, r.err, {})
+    ELSE LET r == ItemValidate(f, Head(l), path, pos) IN
+         IF r.ok THEN ItemsValidate(f, Tail(l), path, Append(acc, r.cfg), IF grow THEN pos + 1 ELSE pos, grow)
+         ELSE Res(FALSE, acc, r.err, {})
 
 InsertAt(s, i, x) == SubSeq(s, 1, i - 1) \o <<x>> \o SubSeq(s, i, Len(s))
 RemoveAt(s, i) == SubSeq(s, 1, i - 1) \o SubSeq(s, i + 1, Len(s))
@@ -372,29 +387,29 @@ ClampIns(i, n) == IF i < 0 THEN (IF n + i < 0 THEN 0 ELSE n + i) ELSE (IF i > n 
 ListOp(f, cur, op, path) ==
     LET l == cur.l  n == Len(cur.l) IN
     CASE op.m = "append" ->
-            LET r == ItemValidate(f, op.v, path) IN
+            LET r == ItemValidate(f, op.v, path, n) IN
             IF r.ok THEN Res(TRUE, ListV(Append(l, r.cfg)), NoErr, {}) ELSE Res(FALSE, cur, r.err, {})
       [] op.m = "insert" ->
-            LET r == ItemValidate(f, op.v, path) IN
+            LET r == ItemValidate(f, op.v, path, n) IN
             IF r.ok THEN Res(TRUE, ListV(InsertAt(l, ClampIns(op.i, n) + 1, r.cfg)), NoErr, {})
             ELSE Res(FALSE, cur, r.err, {})
       [] op.m = "setitem" ->
-            LET r == ItemValidate(f, op.v, path)
+            LET r == ItemValidate(f, op.v, path, n)
                 j == IF op.i < 0 THEN n + op.i ELSE op.i
             IN  IF ~r.ok THEN Res(FALSE, cur, r.err, {})
                 ELSE IF j < 0 \/ j >= n THEN Res(FALSE, cur, Err("IndexError", path), {})
                 ELSE Res(TRUE, ListV([l EXCEPT ![j + 1] = r.cfg]), NoErr, {})
       [] op.m \in {"extend", "iadd"} ->
             \* list.extend(generator): items validated before the failing one are already in
-            LET r == ItemsValidate(f, op.vs, path, <<>>) IN
+            LET r == ItemsValidate(f, op.vs, path, <<>>, n, TRUE) IN
             Res(r.ok, ListV(l \o r.cfg), r.err, {})
       [] op.m = "setslice_all" ->
-            LET r == ItemsValidate(f, op.vs, path, <<>>) IN
+            LET r == ItemsValidate(f, op.vs, path, <<>>, n, FALSE) IN
             IF r.ok THEN Res(TRUE, ListV(r.cfg), NoErr, {}) ELSE Res(FALSE, cur, r.err, {})
       [] op.m \in {"slice_from", "extend_from"} ->
             \* target[:] = cfg.<src> / target.extend(cfg.<src>): the source is a typed list of
             \* ANOTHER field, so every item is validated by the target's item field
-            LET r == ItemsValidate(f, op.items, path, <<>>) IN
+            LET r == ItemsValidate(f, op.items, path, <<>>, n, op.m = "extend_from") IN
             IF op.m = "slice_from"
             THEN (IF r.ok THEN Res(TRUE, ListV(r.cfg), NoErr, {}) ELSE Res(FALSE, cur, r.err, {}))
             ELSE Res(r.ok, ListV(l \o r.cfg), r.err, {})
@@ -413,9 +428,9 @@ ListOp(f, cur, op, path) ==
 
 PairValidate(f, k, v, path) ==
     LET rk == Validate(f.keyf, k) IN
-    IF ~rk.ok THEN Res(FALSE, NoneV, Err("ValidationError", path), {})
+    IF ~rk.ok THEN Res(FALSE, NoneV, Err("ValidationError", Append(path, <<"@", k>>)), {})
     ELSE LET rv == Validate(f.valf, v) IN
-         IF ~rv.ok THEN Res(FALSE, NoneV, Err("ValidationError", path), {})
+         IF ~rv.ok THEN Res(FALSE, NoneV, Err("ValidationError", Append(path, <<"@", k>>)), {})
          ELSE Res(TRUE, <<rk.v, rv.v>>, NoErr, {})
 RECURSIVE PairsValidate(_, _, _, _)
 PairsValidate(f, kv, path, acc) ==
